@@ -209,6 +209,49 @@ def blocking_stop_run():
     return {'outcomes': dict(out), 'alive': [t1.is_alive(), t2.is_alive()], 'elapsed': time.time() - t0, 'transmitting': A.transmitting()}
 
 
+def handover_run(kind):
+    """the request is completed between its hand-over to the layer and the moment the caller starts to wait: by a post_send_callback
+    that drives process() itself ('callback'), that drops the request with reset() ('abort'), or by another thread processing while the caller is
+    held up in the callback ('thread').  send() must return (or raise BlockingSendFailure for the abort) - never time out."""
+    import isotp
+    sent = []
+    holder = {}
+    stop = threading.Event()
+
+    def cb(req):
+        if kind == 'callback':
+            holder['l'].process()
+        elif kind == 'abort':
+            holder['l'].reset()
+        else:
+            time.sleep(0.15)        # the processing thread completes the request meanwhile
+    a = isotp.Address(isotp.AddressingMode.Normal_11bits, txid=0x111, rxid=0x222)
+    l = isotp.TransportLayerLogic(rxfn=lambda: None, txfn=sent.append, address=a, params={'blocking_send': True}, post_send_callback=cb)
+    holder['l'] = l
+    th = None
+    if kind == 'thread':
+        def loop():
+            while not stop.is_set():
+                l.process()
+                time.sleep(0.005)
+        th = threading.Thread(target=loop, daemon=True)
+        th.start()
+    t0 = time.time()
+    try:
+        l.send(bytes([1, 2, 3]), send_timeout=1.0)
+        out = 'ok'
+    except isotp.BlockingSendTimeout:
+        out = 'timeout'
+    except isotp.BlockingSendFailure:
+        out = 'failure'
+    except Exception as e:
+        out = 'other:' + type(e).__name__
+    stop.set()
+    if th:
+        th.join(2.0)
+    return {'outcome': out, 'elapsed': time.time() - t0, 'frames': len(sent)}
+
+
 def oracle_blocking(sc, res):
     fails = []
     o = res['outcome']
@@ -266,6 +309,17 @@ def run_shard(campaign, shard, nshards, seed, tier):
                                    'stop() with a caller blocked in send(): outcomes %s, still blocked %s, transmitting=%s' % (res['outcomes'], res['alive'], res['transmitting']),
                                    {'scenario': 'stop_while_blocked', 'result': res})
                 part.sample({'scenario': 'stop_while_blocked', 'result': res})
+        if shard == 1 % nshards:
+            for rep in range(reps):
+                for kind, want in (('callback', 'ok'), ('abort', 'failure'), ('thread', 'ok')):
+                    res = handover_run(kind)
+                    part.d['evaluations'] += 1
+                    part.distinct(('handover', kind, rep))
+                    part.hist('blocking_outcome', 'handover-%s/%s' % (kind, res['outcome']))
+                    if res['outcome'] != want:
+                        part.violation('oracle', campaign, 'C12:completion-lost-at-hand-over',
+                                       'request completed (%s) before the caller started to wait: send() outcome %s after %.2fs, expected %s' % (kind, res['outcome'], res['elapsed'], want),
+                                       {'scenario': 'handover-' + kind, 'result': res})
         for rep in range(reps):
             for sc in scs:
                 k += 1
